@@ -123,6 +123,25 @@ def dispFinal (arbs : List Arb) : List (Nat × Bool) → List Vote → List (Nat
   | acc, [] => acc
   | acc, v :: vs => dispFinal arbs (dispStep arbs acc v).1 vs
 
+/-- what reaches the dispatcher: a vote, or `CleanProposals` (on a view change and when a height
+    is finished alike: the collected votes are dropped, they belonged to the abandoned proposal). -/
+inductive DItem
+  | vote (v : Vote)
+  | clean
+  deriving DecidableEq, Repr
+
+def dispRunI (arbs : List Arb) : List (Nat × Bool) → List DItem → List (Option (Bool × Bool) × Nat)
+  | _, [] => []
+  | acc, .vote v :: xs =>
+    let r := dispStep arbs acc v
+    (some (r.2, hasMajority arbs.length r.1.length), r.1.length) :: dispRunI arbs r.1 xs
+  | _, .clean :: xs => (none, 0) :: dispRunI arbs [] xs
+
+def dispFinalI (arbs : List Arb) : List (Nat × Bool) → List DItem → List (Nat × Bool)
+  | acc, [] => acc
+  | acc, .vote v :: xs => dispFinalI arbs (dispStep arbs acc v).1 xs
+  | _, .clean :: xs => dispFinalI arbs [] xs
+
 /-! ### block pool + chain for one block `B` (mempool/blockpool.go AddDposBlock / AppendDposBlock /
 AppendConfirm / confirmBlock, blockchain.connectBlock → checkBlockWithConfirmation)
 
